@@ -105,6 +105,15 @@ def r1(c):
     c.check("C05.R1", ok, repo.loc(m, arms), "_stripped_indents/push", "the indent arm does not push level - curr_level", key_text="push")
     ok = isinstance(y.value, ast.Tuple) and norm(y.value.elts[0]) == "len(indents)" and any("isinstance(line, str)" in a for a in G.atoms(f))
     c.check("C05.R1", ok, repo.loc(m, y), "_stripped_indents/yield", "the depth yielded is not len(indents), or non-string markers are yielded as rows", key_text="yield")
+    # the base offset of a section is fixed by its first line: g_level is (re)bound to a line's indent only while it is still None
+    fixes = [n for n in walk_no_nested(fn) if isinstance(n, ast.Assign) and norm(n.targets[0]) == "g_level" and not (isinstance(n.value, ast.Constant) and n.value.value is None)
+             and gm.conds[id(n)]]
+    okf = bool(fixes)
+    for n in fixes:
+        ff = gm.formula(n, G.GuardEnv(rename=lambda s_: "unset" if s_ in ("g_level is None", "None is g_level") else s_))
+        okf = okf and G.implies(ff, G.Atom("unset"))
+    c.check("C05.R1", okf, repo.loc(m, fixes[0] if fixes else fn), "_stripped_indents/base-fixed-by-first-line", "the base offset g_level is re-bound for a later line of the same section: "
+            "a line indented less than the first line re-bases the block instead of being refused (the level < 0 test can no longer fire)", key_text="base-offset")
     resets = [n for n in walk_no_nested(fn) if isinstance(n, ast.Assign) and norm(n.targets[0]) in ("indents", "curr_level", "g_level") and gm.conds[id(n)]
               and G.implies(gm.formula(n, G.GuardEnv(rename=lambda s_: "is_end" if s_ in ("line is BlockEnd", "BlockEnd is line") else s_)), G.Atom("is_end"))]
     c.check("C05.R1", {norm(n.targets[0]) for n in resets} == {"indents", "curr_level", "g_level"}, repo.loc(m, fn), "_stripped_indents/reset-on-BlockEnd", "the indent stack, current level and base offset are not all reset at a section break", key_text="reset")
